@@ -44,6 +44,12 @@ package main
 //      resolvable IDs succeeds and deletes exactly the named snapshots.
 //      With an unresolvable argument (or IDs combined with a filter) only
 //      deleted ⊆ named and (c) are demanded.
+//
+// Deviations from DESIGN: repositories are all type sequences up to length 2
+// (quick) / 3 (thorough) plus five fixed shapes of length 5 instead of "all
+// repositories with <= 5 snapshots" (8^5 shapes x 90 runs is out of budget);
+// keep-tag a and "latest" / ID+filter argument lists were added; every
+// configuration is run as dry-run and real run back to back.
 
 import (
 	"bytes"
